@@ -15,17 +15,16 @@ open Evo Evo.TrajPlan
 
 /-! ## order of the steps -/
 
-theorem opt_rank_sublist (b : Bool) (k : Kind) : (opt b k).map Kind.rank <+ [k.rank] := by
+theorem opt_rank_sublist (b : Bool) (k : Kind) : List.Sublist ((opt b k).map Kind.rank) [k.rank] := by
   cases b <;> simp [opt]
 
 theorem mem_opt {b : Bool} {k x : Kind} : x ∈ opt b k ↔ b = true ∧ x = k := by
   cases b <;> simp [opt]
 
-theorem plane_rank_sublist (p : Option Plane) :
-    (match p with | some p => [Kind.project p] | none => []).map Kind.rank <+ [8] := by
-  cases p <;> simp [Kind.rank]
+theorem plane_rank_sublist (p : Option Plane) : List.Sublist ((optPlane p).map Kind.rank) [8] := by
+  cases p <;> simp [Kind.rank, optPlane]
 
-theorem exports_rank_sublist (f : Flags) : (exports f).map Kind.rank <+ [9, 10] := by
+theorem exports_rank_sublist (f : Flags) : List.Sublist ((exports f).map Kind.rank) [9, 10] := by
   unfold exports
   rw [List.map_append]
   exact (opt_rank_sublist _ _).append (opt_rank_sublist _ _)
@@ -40,9 +39,9 @@ theorem kinds_order (f : Flags) (l : List Kind) (h : kinds f = .ok l) :
   split at h
   · cases h
   · cases h
-    have hs : (List.range 11).Pairwise (· < ·) := by decide
+    have hs : [0, 1, 2, 3, 4, 5, 6, 7, 8, 9, 10].Pairwise (· < ·) := by decide
     refine List.Pairwise.sublist ?_ hs
-    simp only [List.map_append]
+    simp only [List.map_append, List.append_assoc]
     exact (opt_rank_sublist _ .downsample).append <| (opt_rank_sublist _ .motionFilter).append <|
       (opt_rank_sublist _ .merge).append <| (opt_rank_sublist _ .tOffset).append <|
       (opt_rank_sublist _ .sync).append <| (opt_rank_sublist _ (.align _ _)).append <|
@@ -72,12 +71,40 @@ theorem refPlan_order (o : TrajOpts) : ((refPlan o).map Step.rank).Pairwise (· 
   split
   · have hs : [0, 1, 8, 9, 10].Pairwise (· < ·) := by decide
     refine List.Pairwise.sublist ?_ hs
-    simp only [List.map_append]
+    simp only [List.map_append, List.append_assoc]
     exact (opt_rank_sublist _ .downsample).append <| (opt_rank_sublist _ .motionFilter).append <|
       (plane_rank_sublist _).append (exports_rank_sublist _)
   · simp
 
 /-! ## which option produces which step -/
+
+theorem mem_plane {p : Option Plane} {x : Kind} :
+    x ∈ optPlane p ↔ ∃ q, p = some q ∧ x = .project q := by
+  cases p <;> simp [optPlane]
+
+/-- membership in the plan, one disjunct per step of `run` -/
+theorem mem_kinds (f : Flags) (l : List Kind) (h : kinds f = .ok l) (x : Kind) :
+    x ∈ l ↔
+      (f.downsample = true ∧ x = .downsample) ∨ (f.motionFilter = true ∧ x = .motionFilter) ∨
+      (f.merge = true ∧ x = .merge) ∨ (f.tOffset = true ∧ x = .tOffset) ∨
+      ((f.synced && f.sub != .kitti) = true ∧ x = .sync) ∨
+      ((f.synced && (f.align || f.correctScale)) = true ∧ x = .align f.correctScale (f.correctScale && !f.align)) ∨
+      ((f.synced && f.alignOrigin) = true ∧ x = .alignOrigin) ∨
+      ((f.transformLeft || f.transformRight) = true ∧
+        x = .transform (if f.transformLeft then .left else .right) f.invert f.transformRight f.propagate) ∨
+      (∃ q, f.plane = some q ∧ x = .project q) ∨
+      (f.saveTum = true ∧ x = .exportTum) ∨ (f.saveKitti = true ∧ x = .exportKitti) := by
+  unfold kinds at h
+  split at h
+  · cases h
+  · cases h
+    simp only [List.mem_append, mem_opt, mem_plane, exports, or_assoc]
+
+theorem synced_of_alignOrigin (f : Flags) (h : f.alignOrigin = true) : f.synced = true := by
+  simp [Flags.synced, h]
+
+theorem synced_of_align (f : Flags) (h : f.align = true ∨ f.correctScale = true) : f.synced = true := by
+  rcases h with h | h <;> simp [Flags.synced, h]
 
 /-- **each step is present exactly when its option is set** (and nothing dies) -/
 theorem steps_present_iff (f : Flags) (l : List Kind) (h : kinds f = .ok l) :
@@ -90,16 +117,18 @@ theorem steps_present_iff (f : Flags) (l : List Kind) (h : kinds f = .ok l) :
     (∀ p, Kind.project p ∈ l ↔ f.plane = some p) ∧
     (Kind.exportTum ∈ l ↔ f.saveTum = true) ∧
     (Kind.exportKitti ∈ l ↔ f.saveKitti = true) := by
-  unfold kinds at h
-  split at h
-  · cases h
-  · cases h
-    have hp : ∀ p q : Plane, Kind.project p ∈ (match f.plane with | some p => [Kind.project p] | none => []) ↔
-        f.plane = some p := by
-      intro p; cases f.plane <;> simp [eq_comm]
-    simp only [List.mem_append, mem_opt, exports, Flags.synced] at *
-    cases hpl : f.plane <;> simp_all [Flags.synced] <;> (try (cases f.sub <;> simp_all))
-    all_goals (intro p; constructor <;> intro h' <;> simp_all)
+  have m := mem_kinds f l h
+  refine ⟨?_, ?_, ?_, ?_, ?_, ?_, ?_, ?_, ?_⟩
+  · rw [m]; simp
+  · rw [m]; simp
+  · rw [m]; simp
+  · rw [m]; simp
+  · rw [m]; simp
+  · rw [m]; simp
+    intro ha; exact synced_of_alignOrigin f ha
+  · intro p; rw [m]; simp [eq_comm]
+  · rw [m]; simp
+  · rw [m]; simp
 
 /-- **Umeyama alignment wiring**: the alignment step exists iff `--align` or `--correct_scale`;
 `correct_scale` is the `-s` flag, and only the scale is corrected exactly when `-s` is given without
@@ -107,13 +136,12 @@ theorem steps_present_iff (f : Flags) (l : List Kind) (h : kinds f = .ok l) :
 theorem align_wiring (f : Flags) (l : List Kind) (h : kinds f = .ok l) (c s : Bool) :
     Kind.align c s ∈ l ↔ ((f.align = true ∨ f.correctScale = true) ∧ c = f.correctScale ∧
       s = (f.correctScale && !f.align)) := by
-  unfold kinds at h
-  split at h
-  · cases h
-  · cases h
-    simp only [List.mem_append, mem_opt, exports, Flags.synced]
-    cases hpl : f.plane <;> simp [Flags.synced] <;> constructor <;> intro h' <;>
-      (try (obtain ⟨h1, h2, h3⟩ := h')) <;> simp_all
+  rw [mem_kinds f l h]
+  simp only [reduceCtorEq, and_false, false_or, or_false, exists_false, Kind.align.injEq, Bool.and_eq_true,
+    Bool.or_eq_true]
+  constructor
+  · rintro ⟨⟨_, h1⟩, h2, h3⟩; exact ⟨h1, h2, h3⟩
+  · rintro ⟨h1, h2, h3⟩; exact ⟨⟨synced_of_align f h1, h1⟩, h2, h3⟩
 
 /-- **`--transform_right` selects right-multiplication** (and only it), `--invert_transform` the
 inversion, `--propagate_transform` the propagation; the file is the left one when given, else the
@@ -123,13 +151,11 @@ theorem transform_right_selects_right_mul (f : Flags) (l : List Kind) (h : kinds
     Kind.transform file inv r p ∈ l ↔
       ((f.transformLeft = true ∨ f.transformRight = true) ∧ r = f.transformRight ∧ inv = f.invert ∧
         p = f.propagate ∧ file = (if f.transformLeft then .left else .right)) := by
-  unfold kinds at h
-  split at h
-  · cases h
-  · cases h
-    simp only [List.mem_append, mem_opt, exports]
-    cases hpl : f.plane <;> simp <;> constructor <;> intro h' <;>
-      (try (obtain ⟨h1, h2, h3, h4, h5⟩ := h')) <;> simp_all
+  rw [mem_kinds f l h]
+  simp only [reduceCtorEq, and_false, false_or, or_false, exists_false, Kind.transform.injEq, Bool.or_eq_true]
+  constructor
+  · rintro ⟨h0, h1, h2, h3, h4⟩; exact ⟨h0, h3, h2, h4, h1⟩
+  · rintro ⟨h0, h3, h2, h4, h1⟩; exact ⟨h0, h1, h2, h3, h4⟩
 
 /-- the time offset value, the down-sampling size, the filter thresholds, `t_max_diff` and
 `n_to_align` reach the step they belong to -/
